@@ -761,6 +761,35 @@ def s11(prog, chk, classes):
     chk.floor("S11", n, 2)
 
 
+def s12(prog, chk):
+    from e1_paths import peel_cond
+    """S12 - the seed the library reports is the state of the generator.  `law_get_random_seed()` returns the file-static `Random_value`, and
+    the simulators use it to give each band / simulation its own seed and to save / restore the stream.  Every branch of a drawing primitive
+    must therefore advance `Random_value`: the branch of the new-style generator (`Random_gen`) never does, so with
+    law_set_old_style(false) the value reported is a constant and every band, simulation and variable is given the same seed."""
+    n = 0
+    for f in sorted(prog.funcs, key=lambda x: (x.file, x.line)):
+        if f.body is None or not f.file.endswith("src/Basic/Law.cpp"):
+            continue
+        for x in f.walk():
+            if x["k"] != "If" or x["c"][-3] is None or x["c"][-1] is None:
+                continue
+            core, pol = peel_cond(x["c"][-3])
+            if core is None or core["k"] != "DeclRefExpr" or core.get("n") != "Random_Old_Style":
+                continue
+            new_branch = x["c"][-1] if pol else x["c"][-2]
+            if new_branch is None or not any(z["k"] == "DeclRefExpr" and z.get("n") == "Random_gen" for z in walk(new_branch)):
+                continue
+            n += 1
+            adv = any(z["k"] in ("Assign", "CompoundAssign") and z["c"][0] is not None and z["c"][0]["k"] == "DeclRefExpr" and z["c"][0].get("n") == "Random_value"
+                      for z in walk(new_branch)) or any(z["k"] == "Call" and (z.get("callee") or "") in ("law_uniform", "law_gaussian") for z in walk(new_branch))
+            chk.analysed(f)
+            chk.ob("S12", "%s: the new-style branch advances the seed that law_get_random_seed() reports" % f.name, f.loc(x), adv,
+                   detail=None if adv else "the branch draws from `Random_gen` and leaves `Random_value` untouched: law_get_random_seed() returns the same "
+                   "value before and after the draw", key="S12|%s" % f.name)
+    chk.floor("S12", n, 3)
+
+
 def _ord(f, c):
     """ordinal of the call among the calls of the same callee in f (position-independent key)"""
     same = [x["i"] for x in f.calls() if x.get("callee") == c.get("callee")]
@@ -946,6 +975,7 @@ def main(tier):
     s9(prog, chk)
     s10(prog, chk)
     s11(prog, chk, seeded_classes)
+    s12(prog, chk)
     for k in sorted(an.assumed):
         chk.assumptions.append("draw %s in %s treated as seeded: %s" % (k[1], k[0], ASSUMED_SEEDED[k]))
     return chk.finish()
